@@ -186,6 +186,19 @@ def conventions(name, st, key, point):
             out.append(("convention/%s" % name, "%s(%r).build_cdb(zz_not_a_field=0, **decoded fields) gives %s, the command's CDB is %s" % (name, point, again.hex(), ref.hex())))
     except Exception as e:   # noqa: BLE001
         out.append(("convention/%s" % name, "%s(%r).build_cdb(zz_not_a_field=0, **decoded fields) raised %s: %s" % (name, point, type(e).__name__, e)))
+    # ... and build_cdb() used as a CDB factory for a sibling command of the same length group (VERIFY through a READ object): the
+    # operation code the caller names is the one that goes out, as with the class-level marshall_cdb
+    try:
+        from vf.spec import opcodes as T
+        other = next(c for c in range(ref[0] ^ 0x07, 256) if T.cdb_length(c) == len(ref) and c != ref[0])
+        f2 = dict(fields, opcode=other)
+        a, b = bytes(inst.build_cdb(**f2)), bytes(cls.marshall_cdb(dict(f2)))
+        if a != b or a[0] != other:
+            out.append(("convention/%s" % name, "%s(%r).build_cdb(opcode=%#04x, ...) gives %s, %s.marshall_cdb of the same fields %s" % (name, point, other, a.hex(), name, b.hex())))
+    except StopIteration:
+        pass
+    except Exception as e:   # noqa: BLE001
+        out.append(("convention/%s" % name, "%s(%r).build_cdb with another operation code of the same length group raised %s: %s" % (name, point, type(e).__name__, e)))
     # ... and the class's marshall_cdb given the decoded fields as a row object (keys() / row[name]; iterating it yields the values)
     try:
         from vf.props.c02 import Record
